@@ -52,7 +52,8 @@ def c09_case(draw):
             "rw": {"seed": draw(st.integers(0, 2 ** 31)), "kinds": draw(st.sampled_from(
                 [["permute_keys"], ["flow"], ["permute_keys", "comments"], ["float_spelling"], ["quote_strings"], ["block", "indent"], ["anchors"]]))},
             "mut": draw(st.sampled_from(["value", "mode", "max_runs", "combine", "add_key", "drop_value"])),
-            "value_src": draw(st.sampled_from(["config", "context"])), "unicode": draw(st.integers(0, 3)) == 0}
+            "value_src": draw(st.sampled_from(["config", "context"])), "unicode": draw(st.integers(0, 3)) == 0,
+            "eq_typed": draw(st.sampled_from([False, False, True])), "csv_select_rename": draw(st.sampled_from([False, True]))}
 
 
 def materialise(case: Dict[str, Any]) -> Dict[str, Any]:
@@ -87,15 +88,26 @@ def materialise(case: Dict[str, Any]) -> Dict[str, Any]:
             nodes.append({"p": "FloatAddOperation", "sweep": {"vars": {"t": {"kind": "values", "values": [1.0, 2.0]}}, "params": {"addend": "2 * t"},
                                                                "mode": "combinatorial", "broadcast": False, "collection": "FloatDataCollection"}})
             nodes.append({"p": "FloatCollectionSumOperation"})
-    nodes.append({"p": 'template:"out_{idx}.txt":path'})
-    nodes.append({"p": "FloatTxtFileSaver"})
+    if case.get("eq_typed"):
+        # no per-run index and no context-writing template: the run contexts themselves may then compare equal
+        nodes.append({"p": "FloatTxtFileSaver", "params": {"path": "out_None.txt"}})
+        keys = [k for k in keys if k != "idx"] or ["factor"]
+        if keys == ["factor"] and not any(n["p"] == "FloatMultiplyOperation" for n in nodes):
+            nodes.insert(1, {"p": "FloatMultiplyOperation"})
+    else:
+        nodes.append({"p": 'template:"out_{idx}.txt":path'})
+        nodes.append({"p": "FloatTxtFileSaver"})
     keys = list(dict.fromkeys(keys))
     n = case["n"]
-    second_keys = [k for k in keys if k in ("factor", "addend")][:1] if case["second"] else []
+    second_keys = [k for k in keys if k in ("factor", "addend")][:1] if (case["second"] and not case.get("eq_typed")) else []
     first_keys = [k for k in keys if k not in second_keys]
     fail_at = case["fail_at"] if (case["fail_at"] is not None and "divisor" in keys and case["fail_at"] < n) else None
     vals = {"idx": list(range(n)), "value": [float(3 + i) for i in range(n)], "factor": [2.0 + i for i in range(n)],
             "addend": [0.5 + i for i in range(n)], "seq": [[1.5 + i + j for j in range(1 + (i + 1) % 3)] for i in range(n)], "divisor": [(0.0 if fail_at == i else 2.0 + i) for i in range(n)]}
+    if case.get("eq_typed"):
+        # consecutive runs whose contexts compare equal (1 == 1.0 == True) but are different values
+        vals["factor"] = [1, 1.0, True, 3][:n]
+        vals["addend"] = [0, 0.0, False, 2][:n]
     blocks: List[Dict[str, Any]] = [{"mode": "by_position", "context": {k: vals[k] for k in first_keys}}]
     if case.get("unicode"):
         # an extra (unused) context key with non-ASCII text: the spec ID must still agree between inspect and the trace
@@ -109,8 +121,13 @@ def materialise(case: Dict[str, Any]) -> Dict[str, Any]:
         col = [1.5 + j for j in range(m2)]
         combine = case["combine"]
         if case["second"] == "csv":
-            files.append({"format": "csv", "shape": "rows", "columns": {k: col}, "scalar_column": None, "name": "src0.csv"})
-            blocks.append({"mode": case["second_mode"], "context": {}, "source": {"format": "csv", "path": "src0.csv", "select": None, "rename": {}, "mode": "by_position"}})
+            if case.get("csv_select_rename"):
+                # the file has a second column that is not selected; the rename map also names that column
+                files.append({"format": "csv", "shape": "rows", "columns": {k: col, "other": [float(j) for j in range(m2)]}, "scalar_column": None, "name": "src0.csv"})
+                blocks.append({"mode": case["second_mode"], "context": {}, "source": {"format": "csv", "path": "src0.csv", "select": [k], "rename": {"other": "unused_name"}, "mode": "by_position"}})
+            else:
+                files.append({"format": "csv", "shape": "rows", "columns": {k: col}, "scalar_column": None, "name": "src0.csv"})
+                blocks.append({"mode": case["second_mode"], "context": {}, "source": {"format": "csv", "path": "src0.csv", "select": None, "rename": {}, "mode": "by_position"}})
         else:
             blocks.append({"mode": case["second_mode"], "context": {k: col}, "source": None})
     spec = {"combine": combine, "max_runs": 1000, "blocks": blocks, "files": files, "entry": "yaml"}
@@ -201,6 +218,8 @@ def check_case(case: Dict[str, Any], col: Collector, workroot: str = ".") -> Non
             labs.append("source_file")
         if any(m == "sweep" for m in case["mids"]):
             labs.append("sweep")
+        if case.get("eq_typed"):
+            labs.append("equal_but_differently_typed_run_contexts")
         if any(m == "sweep_ctx" for m in case["mids"]):
             labs.append("sweep_from_context_per_run")
         if case.get("unicode"):
@@ -268,7 +287,8 @@ def check_case(case: Dict[str, Any], col: Collector, workroot: str = ".") -> Non
             name = f"out_{plan[i].get('idx')}.txt"
             solo_out = open(os.path.join(sd, name)).read() if os.path.exists(os.path.join(sd, name)) else None
             last_with_idx = max(j for j in range(started) if plan[j].get("idx") == plan[i].get("idx"))
-            if i == last_with_idx and L["outs"].get(name) != solo_out:  # a later run with the same idx overwrites the file
+            shared_file = bool(case.get("eq_typed")) and fail_at is not None  # one fixed file: a failing run leaves the previous run's output
+            if i == last_with_idx and not shared_file and L["outs"].get(name) != solo_out:  # a later run with the same idx overwrites the file
                 bad("run_result_differs_from_standalone", {"failing_run": i == fail_at}, {"launch": L["outs"].get(name), "index": i}, solo_out)
             if mine != solo:
                 fields = "record_count" if len(mine) != len(solo) else next(
@@ -324,7 +344,8 @@ def check_case(case: Dict[str, Any], col: Collector, workroot: str = ".") -> Non
         k0 = sorted(b0["context"])[0]
         mut = case["mut"]
         if mut == "value":
-            b0["context"][k0] = list(b0["context"][k0][:-1]) + [b0["context"][k0][-1] + 100]
+            lastv = b0["context"][k0][-1]
+            b0["context"][k0] = list(b0["context"][k0][:-1]) + [(lastv + [100.0]) if isinstance(lastv, list) else (lastv + "x") if isinstance(lastv, str) else (lastv + 100)]
         elif mut == "mode" and len(b0["context"]) >= 1:
             b0["mode"] = "combinatorial"
         elif mut == "max_runs":
